@@ -87,19 +87,29 @@ Proof.
   - assert (2147483648 < W64) by (rewrite W64_eq; reflexivity). lia.
 Qed.
 
-(* in a flattened holder the sections in front of a non-empty one end exactly at its offset *)
-Lemma flatten_prefix_end h h' : wf_holder h -> flatten h = (EOk, h') ->
-  forall l1 s l2, h' = l1 ++ s :: l2 -> real_size s <> 0 -> lend_ne 0 l1 = soff s.
+(* in a tight layout the sections in front of a non-empty one end exactly at its offset *)
+Lemma prefix_end_generic l1 s l2 : Forall wf_sec (l1 ++ s :: l2) -> laid_ne 0 (l1 ++ s :: l2) -> tight (l1 ++ s :: l2) ->
+  real_size s <> 0 -> lend_ne 0 l1 = soff s.
 Proof.
-  intros Hwf E l1 s l2 El Hne. destruct (flatten_flattened h h' Hwf E) as [Hp Eh Hwf' Hl Hlne _ _ _].
-  pose proof W64_pos.
-  destruct (extend_tight (assign 0 h) 0 (assign_wf h 0 Hwf) ltac:(lia) Hl) as [Ht _]. rewrite <- Eh in Ht.
-  rewrite El in Ht, Hlne, Hwf'.
+  intros Hwf' Hlne Ht Hne.
   destruct (tight_prefix_end l1 s l2 0 Ht Hne) as [[Ha E0]|Er]; [|assumption].
   rewrite E0. apply laid_ne_app in Hlne. destruct Hlne as [_ Hs]. rewrite E0 in Hs. cbn [laid_ne] in Hs.
   destruct (Z.eqb_spec (real_size s) 0); [contradiction|]. destruct Hs as [Eo _].
   apply Forall_app in Hwf'. destruct Hwf' as [_ Hw2]. inversion Hw2 as [|? ? [_ [_ Hok]] _]; subst.
   rewrite Eo. symmetry. apply align_up_0. assumption.
+Qed.
+
+Lemma flatten_mid_tight h h' : wf_holder h -> flatten_mid h = (EOk, h') -> tight h'.
+Proof.
+  intros Hwf E. destruct (flatten_flattened h h' Hwf E) as [Hp Eh Hwf' Hl Hlne _ _ _]. pose proof W64_pos.
+  destruct (extend_tight (assign 0 h) 0 (assign_wf h 0 Hwf) ltac:(lia) Hl) as [Ht _]. rewrite <- Eh in Ht. assumption.
+Qed.
+
+Lemma flatten_prefix_end h h' : wf_holder h -> flatten_mid h = (EOk, h') ->
+  forall l1 s l2, h' = l1 ++ s :: l2 -> real_size s <> 0 -> lend_ne 0 l1 = soff s.
+Proof.
+  intros Hwf E l1 s l2 El Hne. destruct (flatten_flattened h h' Hwf E) as [_ _ Hwf' _ Hlne _ _ _].
+  pose proof (flatten_mid_tight h h' Hwf E) as Ht. subst h'. apply (prefix_end_generic l1 s l2); assumption.
 Qed.
 
 (* ------------------------------------------------------------------ the address-table shrink *)
@@ -156,17 +166,17 @@ Proof.
   - rewrite !map_app. f_equal. clear -G. induction G as [|a b la lb [_ [_ [_ ?]]] _ IH]; cbn [map]; [reflexivity|]. congruence.
 Qed.
 
-(* JitRuntime::_add: estimate = code_size() after flatten; relocate_to_base shrinks the address table (the last section)
+(* JitRuntime::_add: estimate = code_size() after flatten_mid; relocate_to_base shrinks the address table (the last section)
    from its reserved virtual size to the used slots; the final size is estimate - reduction and never exceeds the estimate *)
-Lemma estimate_monotone h h' l1 t used : wf_holder h -> flatten h = (EOk, h') -> h' = l1 ++ [t] ->
+Lemma estimate_generic l1 t used : Forall wf_sec (l1 ++ [t]) -> laid_ne 0 (l1 ++ [t]) -> tight (l1 ++ [t]) ->
   (forall x, In x l1 -> sid x <> sid t) -> 0 <= used -> sbsize t <= used <= svsize t ->
-  exists h'' r, shrink_last h' (sid t) used = (h'', r) /\ r = svsize t - used /\ 0 <= r /\
-                code_size h'' = code_size h' - r /\ code_size h'' <= code_size h'.
+  exists h'' r, shrink_last (l1 ++ [t]) (sid t) used = (h'', r) /\ r = svsize t - used /\ 0 <= r /\
+                code_size h'' = code_size (l1 ++ [t]) - r /\ code_size h'' <= code_size (l1 ++ [t]).
 Proof.
-  intros Hwf E El Hid Hu0 Hu. subst h'. rewrite (shrink_last_app l1 t (sid t) used eq_refl Hid).
+  intros Hwf' Hlne Htight Hid Hu0 Hu. rewrite (shrink_last_app l1 t (sid t) used eq_refl Hid).
   set (t' := set_sizes t used used (firstn (Z.to_nat used) (sdata t))).
   exists (l1 ++ [t']), (svsize t - used). split; [reflexivity|]. split; [reflexivity|]. split; [lia|].
-  destruct (flatten_flattened h _ Hwf E) as [_ _ Hwf' _ Hlne _ _ _]. pose proof W64_pos.
+  pose proof W64_pos.
   assert (Hcs : code_size (l1 ++ [t]) = lend_ne 0 (l1 ++ [t])).
   { unfold code_size. rewrite (cs_walk_laid_ne _ 0 Hwf' ltac:(lia) Hlne). reflexivity. }
   pose proof Hwf' as Hwf0. apply Forall_app in Hwf'. destruct Hwf' as [Hw1 Hw2]. inversion Hw2 as [|? ? Hwt _]; subst.
@@ -187,7 +197,16 @@ Proof.
   - assert (U : used = 0) by (unfold real_size in Z0; lia). destruct (Z.eqb_spec used 0); [|contradiction]. unfold real_size in Z0. lia.
   - assert (Hrt : real_size t = svsize t) by (unfold real_size; lia).
     destruct (Z.eqb_spec used 0) as [U0|Un].
-    + rewrite (flatten_prefix_end h (l1 ++ [t]) Hwf E l1 t [] eq_refl Zn). lia.
+    + rewrite (prefix_end_generic l1 t [] Hwf0 Hlne0 Htight Zn). lia.
     + lia.
+Qed.
+
+Lemma estimate_monotone h h' l1 t used : wf_holder h -> flatten_mid h = (EOk, h') -> h' = l1 ++ [t] ->
+  (forall x, In x l1 -> sid x <> sid t) -> 0 <= used -> sbsize t <= used <= svsize t ->
+  exists h'' r, shrink_last h' (sid t) used = (h'', r) /\ r = svsize t - used /\ 0 <= r /\
+                code_size h'' = code_size h' - r /\ code_size h'' <= code_size h'.
+Proof.
+  intros Hwf E El. destruct (flatten_flattened h h' Hwf E) as [_ _ Hwf' _ Hlne _ _ _].
+  pose proof (flatten_mid_tight h h' Hwf E) as Ht. subst h'. apply estimate_generic; assumption.
 Qed.
 
